@@ -41,7 +41,9 @@ def scriptRun (hexSexp : String) : String :=
   | [fs, prog] =>
     let st := run (fs.items.map sFunc) (prog.items.map sStmt) 400000
     let logText := "\n".intercalate st.log
-    s!"log={hex (logText.toList.flatMap (fun c => utf8Encode1 c.toNat))} notes={",".intercalate (st.notes.map toString)} flag={st.flag}"
+    -- values at or beyond 2^62 in the final scopes: the run left the 64-bit domain the tie is about (the model's integers are unbounded)
+    let big := st.scopes.any (fun sc => sc.any (fun p => match p.2 with | some (.int i) => decide (i.natAbs ≥ 4611686018427387904) | _ => false))
+    s!"log={hex (logText.toList.flatMap (fun c => utf8Encode1 c.toNat))} notes={",".intercalate (st.notes.map toString)} flag={st.flag} big={if big then 1 else 0}"
   | _ => "bad-script"
 
 end Sakura.Driver
